@@ -56,6 +56,10 @@ impl Sm9EncKey {
         if data.len() < 65 + 32 + 1 {
             return Err(Sm9Error::InvalidFieldLen);
         }
+        // C1 is an uncompressed point: 04 || x || y
+        if data[0] != 0x04 {
+            return Err(Sm9Error::InvalidPoint);
+        }
         let c1_bytes = &data[0..65];
         let c2 = &data[(65 + 32)..];
         let c3 = &data[65..(65 + 32)];
